@@ -1,4 +1,112 @@
-import CM.Model.Denote
+/-
+  C01 — A compiled field returns exactly what composing the user functions returns.
+
+  `vm_correct`: for every topologically ordered graph of cache-free edges (functions with positional and keyword
+  bindings, constants, identities, products, hash barriers, hash-by-value and impure wrappers around simple edges,
+  the three switch edges, CheckIds) and every complete assignment of its used inputs, the stack machine of
+  `vm.execute` stops, and
+
+    * what it returns is the value of the cache-free denotation `vden` (the user functions evaluated recursively in
+      dependency order, arguments in declared order, tuples in request order);
+    * what it raises is an exception of a user function (only when the world schedules one) or exactly the error of
+      the denotation; in particular no failed internal assertion, eviction `KeyError` or stack-discipline error ever
+      surfaces unless the denotation itself is ill-typed (`Err.internal`, e.g. a `JoinMapping` value that is not a
+      triple).
+
+  The proof composes four inductions: `sim` (machine ⊑ big-step), `big_sound` (results), `big_count` (the eviction
+  counters `2 × paths` never run out, with ghost completion flags), `node_halts` (termination) and `big_raised`
+  (exceptions).  Graphs *with* cache edges are covered by the rely form in `CM.Props.C04`.
+-/
+import CM.Proofs.Check
 namespace CM.C01
-theorem placeholder : True := trivial
+open CM
+
+/-- **C01 (values).**  `Graph.__call__` stops and its outcome is the one the denotation prescribes. -/
+theorem compiled_value (g : Graph) (ok : GraphOK g) (env : String → Option Val) (w : World) (hc : CallOK g env) :
+    ∃ N o steps, (∀ fuel, N ≤ fuel → g.call env w fuel = some (o, steps)) ∧
+      ValueSpec g (denCfgOf env w) (!w.failAt.isEmpty) o :=
+  call_correct g ok env w hc
+
+/-- **C01 (node hashes).**  The same for `Graph.get_hash`. -/
+theorem compiled_hash (g : Graph) (ok : GraphOK g) (env : String → Option Val) (w : World) (hc : CallOK g env) :
+    ∃ N o steps, (∀ fuel, N ≤ fuel → g.getHash env w fuel = some (o, steps)) ∧
+      HashSpec g (denCfgOf env w) (!w.failAt.isEmpty) o :=
+  getHash_correct g ok env w hc
+
+/-- **No user function raises ⇒ the outcome *is* the denotation**: a value for a value, the same exception class
+for an exception. -/
+theorem compiled_value_no_faults (g : Graph) (ok : GraphOK g) (env : String → Option Val) (w : World) (hc : CallOK g env)
+    (hf : w.failAt = []) :
+    ∃ N o steps, (∀ fuel, N ≤ fuel → g.call env w fuel = some (o, steps)) ∧
+      match vden g (denCfgOf env w) with
+      | .ok v => ∃ s, o = .done (.val v) s
+      | .error e => ∃ s, o = .raised e s := by
+  obtain ⟨N, o, steps, hrun, hspec⟩ := call_correct g ok env w hc
+  refine ⟨N, o, steps, hrun, ?_⟩
+  cases o with
+  | next _ => exact absurd hspec (by simp [ValueSpec])
+  | done x s =>
+    obtain ⟨v, hx, hv⟩ := hspec
+    rw [hv]; exact ⟨s, by rw [hx]⟩
+  | raised e s =>
+    cases hspec with
+    | inl h => obtain ⟨_, _, h2⟩ := h; simp [hf] at h2
+    | inr h => rw [h]; exact ⟨s, rfl⟩
+
+/-- **No internal error surfaces** unless the denotation itself is ill-typed. -/
+theorem no_internal_error (g : Graph) (ok : GraphOK g) (env : String → Option Val) (w : World) (hc : CallOK g env)
+    (hd : vden g (denCfgOf env w) ≠ .error .internal) (fuel : Nat) (s : St) (steps : Nat) :
+    g.call env w fuel ≠ some (.raised .internal s, steps) := by
+  obtain ⟨N, o, steps', hrun, hspec⟩ := call_correct g ok env w hc
+  intro h
+  -- more fuel gives the same outcome
+  have hmono : ∀ (k : Nat) (st : St) (c : Nat) (r : Outcome × Nat), run g k st c = some r → ∀ k', k ≤ k' → run g k' st c = some r := by
+    intro k
+    induction k with
+    | zero => intro st c r h; simp [run] at h
+    | succ k ih =>
+      intro st c r h k' hk
+      obtain ⟨k'', rfl⟩ : ∃ j, k' = j + 1 := ⟨k' - 1, by omega⟩
+      simp only [run] at h ⊢
+      cases hs : step g st with
+      | next st' => simp only [hs] at h ⊢; exact ih st' _ r h k'' (by omega)
+      | done _ _ => simp only [hs] at h ⊢; exact h
+      | raised _ _ => simp only [hs] at h ⊢; exact h
+  have h1 := hmono fuel _ 0 _ h (max fuel N) (Nat.le_max_left ..)
+  have h2 := hrun (max fuel N) (Nat.le_max_right ..)
+  simp only [Graph.call] at h2
+  rw [h1] at h2
+  injection h2 with h2
+  injection h2 with h2 _
+  subst h2
+  cases hspec with
+  | inl h => obtain ⟨_, h1, _⟩ := h; cases h1
+  | inr h => exact hd h
+
+/-! ### the hypotheses are satisfiable, and the conclusion is not trivial -/
+
+/-- `out = f(g(x), g(x), k=c)` with a shared parent used twice, a keyword binding, a constant,
+a hash-by-value wrapper and an impure wrapper on the way -/
+def demo : Graph :=
+  { nodes := [
+      ⟨"x", none, []⟩,                                        -- 0: input
+      ⟨"gx", some (.function "g" [] []), [0]⟩,                 -- 1: g(x)
+      ⟨"c", some (.constant (.int 7)), []⟩,                    -- 2: constant
+      ⟨"hv", some (.byValue (.function "h" [] [])), [1]⟩,      -- 3: @hash_by_value h(g(x))
+      ⟨"im", some (.impure (.function "r" [] [])), [3]⟩,       -- 4: @impure r(h(..))
+      ⟨"out", some (.function "f" ["k"] []), [1, 1, 2]⟩,       -- 5: f(g(x), g(x), k=7)
+      ⟨"pair", some .product, [5, 4]⟩ ],                       -- 6: (out, im)
+    inputs := [0], output := 6 }
+
+def demoEnv : String → Option Val := fun s => if s = "x" then some (.int 1) else none
+
+example : GraphOK demo := okB_sound demo (by decide +kernel)
+example : CallOK demo demoEnv := callOKB_sound demo demoEnv (by decide +kernel)
+
+/-- on the demo graph the denotation is the expected term, so the theorem pins the machine's result to it -/
+example : vden demo (denCfgOf demoEnv { impureFns := ["r"] }) =
+    .ok (.tup [.app "f" [.app "g" [.int 1] [] [], .app "g" [.int 1] [] []] ["k"] [.int 7],
+               .imp "r" 0 4 [.app "h" [.app "g" [.int 1] [] []] [] []] [] []]) := by
+  rfl
+
 end CM.C01
